@@ -143,7 +143,7 @@ def coqchk(pid, root):
     return r.returncode == 0, r.stdout
 
 BASELINE_OFF = "cd /repo && go build ./... && go test -vet=off -count=1 -timeout 25m ./..."
-HOOK_COMMITS = ["ce197cb"]
+HOOK_COMMITS = ["ce197cb", "48ac96e"]
 
 PROPS["C12"].update(
     level_text="Theorems hist_partition / hist_exactly_one_bucket / hist_no_panic / render_counts / unmarshal_preserves / unmarshal_covers_nonnegative are proved in Coq for all bucket lists and latency lists (unbounded) about a Gallina model of Histogram.Add, the renderers and Buckets.UnmarshalText; the model is tied to the Go code on every run by differential execution (extracted model vs real code) and the property is decided on every implementation observation by a checker defined in Coq.",
@@ -380,6 +380,7 @@ reg("C18", needs_cli=True, gen=gen_skel, obligation_files=["Props/C18.v", "Gen/S
     clauses={1: "a dial attempted an address that is not resolved for the host, or not exactly one per IP family present", 2: "an address of the resolved set was never dialled in the second half of a long history (the cached set shrank)",
              3: "a dial failed before reaching the recording dial function", 10: "ConnectTo dialled an address that is not a replacement", 11: "ConnectTo rotation uneven (a replacement used fewer than floor(n/k) or more than ceil(n/k) times)",
              12: "an unmapped address did not pass through unchanged",
+             4: "with a DNS TTL of 0 (cache forever) the host was looked up again for later connections", 40: "the DNS dials of a custom resolver list do not rotate evenly over its addresses",
              30: "the attack command's requests for a -connect-to address did not all succeed at its replacements", 31: "the attack command never used one of the -connect-to replacements"},
     diffs={20: "sequential ConnectTo dial order differs from the model's rotation"},
     assumptions=["rs/dnscache lookup and refresh are library code; the shuffle is an oracle permutation in the model and a PRNG in the code (coverage clause 2 is probabilistic: miss probability < 1e-11 per address)",
